@@ -297,6 +297,47 @@ MODELLED = {
     ("nxscope.py", "NxscopeHandler.ch_divider"): {},
     ("nxscope.py", "NxscopeHandler.channels_default_cfg"): {},
     ("nxscope.py", "NxscopeHandler.dev_channel_get"): {},
+    ("intf/dummy.py", "ChannelFunc0.reset"): {},
+    ("intf/dummy.py", "ChannelFunc0.get"): {},
+    ("intf/dummy.py", "ChannelFunc1.reset"): {},
+    ("intf/dummy.py", "ChannelFunc1.get"): {},
+    ("intf/dummy.py", "ChannelFunc2.reset"): {},
+    ("intf/dummy.py", "ChannelFunc2.get"): {},
+    ("intf/dummy.py", "ChannelFunc3.reset"): {},
+    ("intf/dummy.py", "ChannelFunc3.get"): {},
+    ("intf/dummy.py", "ChannelFunc4.reset"): {},
+    ("intf/dummy.py", "ChannelFunc4.get"): {},
+    ("intf/dummy.py", "ChannelFunc5.reset"): {},
+    ("intf/dummy.py", "ChannelFunc5.get"): {},
+    ("intf/dummy.py", "ChannelFunc6.reset"): {},
+    ("intf/dummy.py", "ChannelFunc6.get"): {},
+    ("intf/dummy.py", "ChannelFunc7.reset"): {},
+    ("intf/dummy.py", "ChannelFunc7.get"): {},
+    ("intf/dummy.py", "ChannelFunc8.reset"): {},
+    ("intf/dummy.py", "ChannelFunc8.get"): {},
+    ("intf/dummy.py", "ChannelFunc9.reset"): {},
+    ("intf/dummy.py", "ChannelFunc9.get"): {},
+    ("intf/dummy.py", "DummyDev.__init__"): {},
+    ("intf/dummy.py", "DummyDev.start"): {},
+    ("intf/dummy.py", "DummyDev.stop"): {},
+    ("intf/dummy.py", "DummyDev._cmninfo_cb"): {},
+    ("intf/dummy.py", "DummyDev._chinfo_cb"): {},
+    ("intf/dummy.py", "DummyDev._enable_cb"): {},
+    ("intf/dummy.py", "DummyDev._div_cb"): {},
+    ("intf/dummy.py", "DummyDev._start_cb"): {},
+    ("intf/dummy.py", "DummyDev._stream_data_get"): {},
+    ("intf/dummy.py", "DummyDev._thread_stream"): {},
+    ("intf/dummy.py", "DummyDev._thread_recv"): {},
+    ("intf/dummy.py", "DummyDev._read"): {},
+    ("intf/dummy.py", "DummyDev._write"): {},
+    ("dev.py", "DeviceChannel.__init__"): {},
+    ("dev.py", "DeviceChannel.reset"): {},
+    ("dev.py", "DeviceChannel.data_get"): {},
+    ("dev.py", "Device.__init__"): {},
+    ("dev.py", "Device.reset"): {},
+    ("dev.py", "Device.channel_get"): {},
+    ("dev.py", "Device.en_channels_update"): {},
+    ("dev.py", "Device.div_channels_update"): {},
     ("thread.py", "ThreadCommon.__init__"): {},
     ("thread.py", "ThreadCommon._stop_is_set"): {},
     ("thread.py", "ThreadCommon._thread_loop"): {},
@@ -320,6 +361,9 @@ DEPENDS = {
     "C01": ["SerialFrame."],
     "C02": ["SerialFrame.", "ParseRecv.recv_handle", "ParseRecv._recv_cb"],
     "C13": ["ThreadCommon."],
+    "C16": ["DummyDev.__init__", "DummyDev.start", "DummyDev.stop", "DeviceChannel.", "Device.reset", "Device.__init__",
+            "ChannelFunc"],
+    "C14": ["DummyDev.", "ParseRecv.", "DeviceChannel.data_get", "Device.channel_get"],
     "C10": ["CommHandler._devinfo_get", "CommHandler._start", "CommHandler._stop", "CommHandler._drop_all",
             "CommHandler._get_frame", "CommHandler._nxslib_c", "CommHandler.connect", "CommHandler.disconnect",
             "CommHandler._read_hdr", "CommHandler._read_frame", "CommHandler._recv_thread", "ThreadCommon."],
@@ -651,9 +695,36 @@ def emit_types(mods, c, status):
     return {"Gen_types.v": "\n".join(out) + "\n"}
 
 
+def dummy_default_alloc(mods):
+    """How DummyDev.__init__ obtains the default channel list: 'true' if every
+    instance gets a fresh copy (copy.deepcopy(...) / a factory call), 'false' if
+    the module-level list itself is handed out."""
+    m = mods.get("intf/dummy.py") or Module("intf/dummy.py")
+    fn = m.func("DummyDev.__init__")
+    found = None
+    for n in ast.walk(fn):
+        if isinstance(n, ast.Assign) and len(n.targets) == 1 and isinstance(n.targets[0], ast.Name) \
+                and n.targets[0].id == "channels":
+            v = n.value
+            if isinstance(v, ast.Name):
+                found = "false"                       # module-level object shared by all default instances
+            elif isinstance(v, ast.Call) and isinstance(v.func, ast.Attribute) and v.func.attr == "deepcopy" \
+                    and isinstance(v.func.value, ast.Name) and v.func.value.id == "copy" and len(v.args) == 1 \
+                    and isinstance(v.args[0], ast.Name):
+                found = "true"
+            elif isinstance(v, ast.Call) and isinstance(v.func, ast.Name):
+                found = "true"                        # factory function building fresh objects
+            else:
+                raise ShapeError("dummy.py: default channel list expression not recognised")
+    if found is None:
+        raise ShapeError("dummy.py: assignment of the default channel list not found")
+    return found
+
+
 def emit_misc(mods, c, status):
     out = [HEADER % "src/nxslib/intf/iintf.py, dev.py, comm.py"]
     out.append(coq_const("align_pad_byte", c["align_pad_byte"]))
+    out.append("Definition dummy_default_fresh : bool := %s." % dummy_default_alloc(mods))
     out.append(coq_const("chinfo_retries", c["chinfo_retries"]))
     out.append(coq_const("connect_timeout", c["connect_timeout"]))
     for nm in ("mask_dtype", "mask_critical", "mask_res", "chan_rw_a", "chan_rw_b"):
